@@ -140,8 +140,13 @@ func (cs *concurrentStrategy) Allowed(APIStream public_types.APIStreamI) (bool, 
 
 func (cs *concurrentStrategy) Dec(APIStream public_types.APIStreamI) error {
 	reqID := APIStream.GetID()
+	// the member is written by Inc under the same lock
+	member := ""
 	cs.mutex.Lock()
 	requestData, found := cs.allowedReq[reqID]
+	if found {
+		member = requestData.member
+	}
 	cs.mutex.Unlock()
 
 	if !found {
@@ -149,7 +154,7 @@ func (cs *concurrentStrategy) Dec(APIStream public_types.APIStreamI) error {
 	}
 
 	if cs.checkReqStatus(reqID, reqAllowed) {
-		err := cs.sharedContext.SRem(cs.concurrentSetKey, requestData.member)
+		err := cs.sharedContext.SRem(cs.concurrentSetKey, member)
 		if err != nil {
 			return err
 		}
